@@ -364,6 +364,20 @@ def rule_call_dispatch(prog, rep, tier, anchor="conformance.ground_truth"):
                         a = t.node.args
                         names = [x.arg for x in a.posonlyargs + a.args + a.kwonlyargs]
                         sub = {}
+                        # arguments already bound by functools.partial (directly or through a local bound once to it)
+                        pe = c.func
+                        if isinstance(pe, ast.Name):
+                            pdefs = [n_.value for n_ in ast.walk(fn.node) if isinstance(n_, ast.Assign) and any(isinstance(t_, ast.Name) and t_.id == pe.id for t_ in n_.targets)]
+                            pe = pdefs[0] if len(pdefs) == 1 else None
+                        if isinstance(pe, ast.Call) and isinstance(pe.func, (ast.Name, ast.Attribute)) and prog.ext_name(pe.func, pe) == "functools.partial":
+                            for i, arg in enumerate(pe.args[1:]):
+                                lab, v_ = val_of(arg)
+                                if lab is not None and v_ is not None and i < len(names):
+                                    sub[names[i]] = v_
+                            for k in pe.keywords:
+                                lab, v_ = val_of(k.value) if k.arg else (None, None)
+                                if k.arg and lab is not None and v_ is not None and k.arg in names:
+                                    sub[k.arg] = v_
                         for i, arg in enumerate(c.args):
                             lab, v_ = val_of(arg)
                             if lab is not None and v_ is not None and i < len(names):
